@@ -150,7 +150,7 @@ def run(ctx):
                 if all(math.isfinite(t) for t in x_out) and fin["status"] != "Busy":
                     yin = sl.V(fin, "y"); S = sl.V(fin, "Sigma")
                     e = [(a - b) / (S[0] if len(S) == 1 else S[i]) for i, (a, b) in enumerate(zip(y_out, yin))]
-                    for sig, msg in C03.relations(p, x_out, y_out, e, yin, S, solver + ":alm"):
+                    for sig, msg in C03.relations(p, x_out, y_out, e, yin, S, solver + ":alm", x_prev=sl.V(fin, "x")):
                         ctx.violation(sig.replace("C03:", "C19:outputs:"), "ALM after stop at %s #%d: %s" % (kind, j, msg), dict(info, why=msg))
                 elif not all(math.isfinite(t) for t in x_out):
                     ctx.violation("C19:outputs:x-not-finite:" + solver + ":alm", "ALM returned non-finite x after stop", info)
